@@ -281,7 +281,21 @@ for wmode in ('none', 'numbers'):
         want = sum(abs(w * (t - round(level * g))).sum() for w, t, g in zip(ws, targets, gains))
         if not np.isclose(got, want):
             VIOLATED, DETAIL = True, f'weights={wmode}: fitness(level={level}) = {got!r}; declared figure of merit over the 3 (target, input, weight) triples = {want!r}'
-""", "expect": "fitness = sum over all (processor, target) pairs of the fitness function on that pair's data and weight"}
+if not VIOLATED:
+    # SHIFTED ranges on a result that is not uniform: the simulated data is cut with the RESULT range, the target with the target range
+    pipe2 = DetectionPipeline(photon_collection=[ModelFunction(func='verif_probes.set_image_ramp', name='img', arguments={'level': 0.0, 'gain': 1.0})])
+    tgt = np.arange(float(rows * cols)).reshape(rows, cols) * 3.0
+    np.save(d / 'ramp.npy', tgt)
+    mf2 = ModelFittingDataTree(processor=Processor(detector=VP.detector(), pipeline=pipe2), variables=variables, readout=Readout(), simulation_output='image', generations=1, population_size=4,
+                               fitness_func=sum_of_abs_residuals, file_path=None, target_fit_range=FitRange2D(row=slice(1, 3), col=slice(2, 4)),
+                               out_fit_range=FitRange3D(time=slice(None), row=slice(0, 2), col=slice(0, 2)), target_filenames=[d / 'ramp.npy'], input_arguments=None, weights=None)
+    for level in (2.0, 7.0):
+        sim = level + 10 * np.arange(rows)[:, None] + np.arange(cols)[None, :]
+        want = np.abs(tgt[1:3, 2:4] - sim[0:2, 0:2]).sum()
+        got = mf2.fitness(np.array([level]))[0]
+        if not np.isclose(got, want):
+            VIOLATED, DETAIL = True, f'result range rows 0:2 cols 0:2, target range rows 1:3 cols 2:4: fitness(level={level}) = {got!r}, declared figure of merit = {want!r}'
+""", "expect": "fitness = sum over all (processor, target) pairs of the fitness function on that pair's data (result range / target range) and weight"}
 
 
 @unit("C11", "fitness.sum")
